@@ -11,21 +11,26 @@
 //!   count-star `SELECT COUNT(*)` (header fast path)              (vs number of rows `SELECT *` shows)
 //!   pk-lookup `SELECT * FROM t WHERE id = k`, k = 1..3           (vs the `SELECT *` rows with that id)
 //!   idx-lookup (schema pkidx) `WHERE a = v` for every value a ever held (vs the `SELECT *` rows)
-//! and stops the history at its first divergent statement.  Every failing oracle of that
-//! statement is reported; its signature carries the MINIMAL operation pattern, obtained by
-//! shrinking the failing history (drop statements / drop RETURNING / split two-row inserts
-//! while the same oracle still fails with the same class).  The recorded case IS the shrunk
-//! history, so replay re-derives the same signature.
+//! and stops the history at its first divergent statement (the observation-only oracles `returning`
+//! and `idx-lookup` are "soft": reported once per history, then switched off for its extensions, because
+//! the table state is checked against the model at the same step anyway).  Every failing oracle of a
+//! statement is reported; its signature carries the MINIMAL operation pattern, obtained by shrinking
+//! the failing history (drop statements / drop RETURNING / split two-row inserts / keyed form of a
+//! set-up DELETE- or UPDATE-all, while the same oracle still fails with the same class).  The recorded
+//! case IS the shrunk history, so replay re-derives the same signature.
 //!
-//! Exploration: histories are not merged (hidden state: tombstones, header counters).  Histories
-//! of length <= S (split depth) are numbered breadth-first and distributed with `ctx.mine`; the
-//! owner of a length-S history explores the whole subtree below it depth-first, re-creating the
-//! database (prefix re-execution without oracle) on backtrack and re-using the live database for
-//! the first child.
+//! Exploration: histories are not merged (hidden state: tombstones, header counters); every history
+//! runs on its own fresh database (prefix re-execution without oracle, last statement with oracle).
+//! Iterative deepening over all passes and schema kinds: length 1 everywhere, then 2, ... so that a
+//! deadline cuts every pass at the same length and the first report of a defect is a shortest one.
+//! Histories of length <= S (split) are numbered breadth-first and distributed with `ctx.mine`; the
+//! owner of a length-S history owns the whole subtree below it, so it knows every divergence above
+//! the histories it extends.
 //!
-//! Passes (per schema kind): `full` = whole alphabet (contains the known tombstone defects, lower
-//! depth); `live` = state-aware alphabet without the constructs listed in findings.d/C05.json so
-//! the remainder reaches full depth; `nodel` = no DELETE at all (INSERT/UPDATE/TRUNCATE only).
+//! Passes (per schema kind): `full` = whole alphabet in every state, every oracle strict (contains the
+//! known defects, lower depth); `live-plain` / `live-ret` / `live-mixed` = state-aware alphabet without
+//! the constructs listed in findings.d/C05.json (see `enabled`), in the three RETURNING families, so
+//! the defect-free remainder reaches full depth.
 use checks::sqlh::*;
 use refmodel::sql::expr::{add, col, eq, int};
 use refmodel::sql::rel::{ColumnDef, CreateIndex, CreateTable, Delete, Insert, Outcome, State, Stmt, TableDef, Update};
@@ -614,57 +619,83 @@ fn shrink(base: &Path, kind: Kind, h: &[CStmt], oracle: &str, cls: &str, strict:
     }
 }
 
-/// Sub-histories of `h` that end with its last statement and have the shape of `min` (same operation
-/// kinds and RETURNING flags, keys renamed one-to-one), as concrete statements of `h`.
-fn embeddings(h: &[CStmt], min: &[CStmt]) -> Vec<Vec<CStmt>> {
-    fn same_shape(a: &Op, b: &Op) -> bool {
-        a.ret == b.ret && std::mem::discriminant(&a.k) == std::mem::discriminant(&b.k)
+/// Histories obtainable from `h` by the shrink moves (drop statements, drop RETURNING, split a two-row
+/// INSERT, keyed form of a set-up DELETE/UPDATE-all) that have exactly the shape of `min` with its
+/// keys renamed one-to-one; they end with the last statement of `h`.  Concrete values come from `h`.
+fn embeddings(h: &[CStmt], min: &[CStmt], kind: Kind, strict: bool) -> Vec<Vec<CStmt>> {
+    // map: (key of min, key of h)
+    fn bind(map: &mut Vec<(u8, u8)>, a: u8, b: u8) -> Option<bool> {
+        match map.iter().find(|(x, y)| *x == a || *y == b) {
+            Some((x, y)) if *x == a && *y == b => Some(false),
+            Some(_) => None,
+            None => {
+                map.push((a, b));
+                Some(true)
+            }
+        }
     }
-    fn go(h: &[CStmt], min: &[CStmt], hi: usize, mi: usize, pick: &mut Vec<usize>, out: &mut Vec<Vec<usize>>) {
+    #[allow(clippy::too_many_arguments)]
+    fn go(h: &[CStmt], min: &[CStmt], hi: usize, mi: usize, map: &mut Vec<(u8, u8)>, pick: &mut Vec<(usize, Op)>, out: &mut Vec<Vec<(usize, Op)>>) {
+        if out.len() >= 4 {
+            return;
+        }
         if mi == min.len() {
             out.push(pick.clone());
             return;
         }
-        // the last statement of min must be the last statement of h
         let remaining = min.len() - mi;
+        let last = remaining == 1;
         for i in hi..h.len() {
             if h.len() - i < remaining {
                 break;
             }
-            if remaining == 1 && i + 1 != h.len() {
+            if last && i + 1 != h.len() {
                 continue;
             }
-            if same_shape(&h[i].op, &min[mi].op) {
-                pick.push(i);
-                go(h, min, i + 1, mi + 1, pick, out);
-                pick.pop();
+            let (ho, mo) = (h[i].op, min[mi].op);
+            if !(mo.ret == ho.ret || (ho.ret && !mo.ret)) {
+                continue;
+            }
+            // candidate key bindings (min key -> h key) that make h[i] an instance / generalisation of min[mi]
+            let options: Vec<Vec<(u8, u8)>> = match (mo.k, ho.k) {
+                (OpK::Ins(x), OpK::Ins(a)) | (OpK::Upd(x), OpK::Upd(a)) | (OpK::Del(x), OpK::Del(a)) => vec![vec![(x, a)]],
+                (OpK::Ins2(x, y), OpK::Ins2(a, b)) => vec![vec![(x, a), (y, b)]],
+                (OpK::Ins(x), OpK::Ins2(a, b)) => vec![vec![(x, a)], vec![(x, b)]],
+                (OpK::Del(x), OpK::DelAll) | (OpK::Upd(x), OpK::UpdAll) if !last => (1..=3u8).map(|k| vec![(x, k)]).collect(),
+                (OpK::UpdAll, OpK::UpdAll) | (OpK::DelAll, OpK::DelAll) | (OpK::Trunc, OpK::Trunc) => vec![vec![]],
+                _ => vec![],
+            };
+            for opt in options {
+                let mark = map.len();
+                let mut ok = true;
+                for (a, b) in &opt {
+                    if bind(map, *a, *b).is_none() {
+                        ok = false;
+                        break;
+                    }
+                }
+                if ok {
+                    let k = match mo.k {
+                        OpK::Ins(_) => OpK::Ins(opt[0].1),
+                        OpK::Upd(_) => OpK::Upd(opt[0].1),
+                        OpK::Del(_) => OpK::Del(opt[0].1),
+                        OpK::Ins2(..) => OpK::Ins2(opt[0].1, opt[1].1),
+                        o => o,
+                    };
+                    pick.push((i, Op { k, ret: mo.ret }));
+                    go(h, min, i + 1, mi + 1, map, pick, out);
+                    pick.pop();
+                }
+                map.truncate(mark);
             }
         }
     }
-    if min.is_empty() || min.len() >= h.len() {
+    if min.is_empty() || min.len() > h.len() {
         return vec![];
     }
     let mut picks = vec![];
-    go(h, min, 0, 0, &mut vec![], &mut picks);
-    let mut out = vec![];
-    for p in picks {
-        // consistent one-to-one key renaming
-        let mut map: Vec<(u8, u8)> = vec![];
-        let mut ok = true;
-        for (j, &i) in p.iter().enumerate() {
-            for (a, b) in min[j].op.keys().iter().zip(h[i].op.keys().iter()) {
-                match map.iter().find(|(x, y)| x == a || y == b) {
-                    Some((x, y)) if x == a && y == b => {}
-                    Some(_) => ok = false,
-                    None => map.push((*a, *b)),
-                }
-            }
-        }
-        if ok {
-            out.push(p.iter().map(|&i| h[i].clone()).collect());
-        }
-    }
-    out
+    go(h, min, 0, 0, &mut vec![], &mut vec![], &mut picks);
+    picks.into_iter().map(|p| p.into_iter().map(|(i, op)| CStmt::new(op, h[i].c, kind, strict)).collect::<Vec<CStmt>>()).filter(|c: &Vec<CStmt>| pattern(c) == pattern(min)).collect()
 }
 
 fn signature(kind: Kind, oracle: &str, minimal: &[CStmt], cls: &str) -> String {
@@ -822,17 +853,6 @@ impl<'a> Explorer<'a> {
         self.db_seq += 1;
         fresh_db(&self.ctx.scratch, &format!("d{}", self.db_seq % 64), kind)
     }
-    /// database in the state after `h` (prefix re-execution, no oracle)
-    fn rebuild(&mut self, kind: Kind, h: &[CStmt], rep: &mut Reporter) -> TestDb {
-        let t = self.fresh(kind);
-        for cs in h {
-            let _ = t.exec(&cs.sql);
-            self.plant_after(&t, cs);
-        }
-        rep.count("prefix_reexecutions", 1);
-        rep.count("prefix_statements_reexecuted", h.len() as u64);
-        t
-    }
     fn plant_after(&self, t: &TestDb, cs: &CStmt) {
         match (self.plant, cs.op.k) {
             (Plant::LostRow, OpK::UpdAll) => {
@@ -904,7 +924,7 @@ impl<'a> Explorer<'a> {
             if found.is_none() {
                 let mut runs = 0u64;
                 'outer: for (min, sig, case) in self.minimals.get(&mkey).cloned().unwrap_or_default() {
-                    for cand in embeddings(h, &min).into_iter().take(2) {
+                    for cand in embeddings(h, &min, kind, pass.strict()).into_iter().take(3) {
                         runs += 1;
                         let ok = run_all(&self.ctx.scratch, kind, &cand, pass.strict(), self.plant).iter().any(|(i, fs)| *i + 1 == cand.len() && fs.iter().any(|x| x.oracle == f.oracle && x.cls == f.cls));
                         if ok {
@@ -1125,15 +1145,21 @@ impl Check for C05 {
         let mut s = Spec::new(
             "C05",
             "model_checking",
-            "a case is one history: a sequence of statements over the alphabet {INSERT k (k in 1..3, fresh value), two-row INSERT, UPDATE SET a=c WHERE id=k, UPDATE SET a=a+1, DELETE WHERE id=k, DELETE, TRUNCATE; each also with RETURNING *} of every length up to the pass depth, per schema kind (no PK / INT PRIMARY KEY / PK + secondary index / PK + 1.5 KB TEXT) executed from a fresh database in lock-step with the relational model; the oracle (error class, affected count, RETURNING bag, SELECT * bag, COUNT(*), point lookups per key, secondary-index lookups per value) runs after every statement. State = executed history prefix, transition = its last statement. Distinct = distinct (schema kind, operation sequence); non-trivial = the last statement is an INSERT or changes the model table.",
+            "a case is one history: a sequence of statements over the alphabet {INSERT k (k in 1..3, fresh value), two-row INSERT, UPDATE SET a=c WHERE id=k, UPDATE SET a=a+1, DELETE WHERE id=k, DELETE, TRUNCATE; each also with RETURNING *} of every length up to the pass depth, per schema kind (no PK / INT PRIMARY KEY / PK + secondary index / PK + 1.5 KB TEXT), executed from a fresh database in lock-step with the relational model; the oracle (error class, affected count, RETURNING bag, SELECT * bag, COUNT(*), point lookups per key, secondary-index lookups per value) judges the last statement, prefixes having been judged as shorter histories (shortest first). Pass `full`: all 25 operations in every state; passes `live-*`: state-aware alphabet without the constructs of the open findings (plain / all-RETURNING / mixed families). State = executed history, transition = its last statement. Distinct = distinct (schema kind, operation sequence); non-trivial = the last statement is an INSERT or changes the model table.",
         );
         s.assumptions = &[
             "reference semantics = refmodel::sql::rel (cross-checked against SQLite); TRUNCATE's affected count is taken to be the number of rows removed (ExecuteResult::Truncate reports rows_affected)",
             "COUNT(*) and the point lookups are judged against the rows the same database shows through SELECT * (self-consistency), SELECT * against the model",
             "single handle, autocommit, WAL off (default); the histories contain no transaction control (C07/C08) and no constraint other than PRIMARY KEY (C09)",
+            "passes live-*: (KF-C05-06) the TOAST column of RETURNING rows is not compared, (KF-C05-07) secondary-index lookups are not judged, (KF-C05-08) UPDATE by key on the TOAST schema sets only a; statements covering tombstoned rows, partially failing two-row INSERTs, UPDATE..WHERE id=k RETURNING on pk/pkidx and WHERE id=k for never-inserted keys are outside their alphabet (pass full keeps all of them)",
         ];
         s.cap_quick_s = 90;
         s.cap_thorough_s = 1500;
+        // development aid for a heavily shared machine: NAME_CAP_S=<seconds> lifts both deadlines
+        if let Some(c) = std::env::var("C05_CAP_S").ok().and_then(|v| v.parse().ok()) {
+            s.cap_quick_s = c;
+            s.cap_thorough_s = c;
+        }
         vec![s]
     }
 
